@@ -174,6 +174,10 @@ def post_arith(ctx, call):
         ok, why = False, "values differ from the elementwise numpy result"
     elif _types_of(res) != (cov, con):
         ok, why = False, f"index types {_types_of(res)} != those of the tensor operand {(cov, con)}"
+    elif res.array.dtype != want.dtype:
+        ok, why = False, f"dtype {res.array.dtype} != dtype {want.dtype} of the elementwise numpy result"
+    elif np.shares_memory(res.array, self.array) or (isinstance(oarr, np.ndarray) and np.shares_memory(res.array, oarr)):
+        ok, why = False, "the result shares its buffer with an operand (an elementwise operation returns a new array)"
     ctx.note(("arith_pairing", f"{type(self).__name__}.{name}({type(other).__name__})"))
     ctx.judge("arith", ok, [self, other], what=f"{name}: {why}", op=name, feat={"op": name, "cls": type(self).__name__, "other": type(other).__name__},
               nontrivial=not _is_scalar(other), expected=[cov, con])
@@ -578,6 +582,12 @@ def g_arith(ctx, rng, i):
            lambda: np.negative(t)]
     if np.ndim(o) == 0:
         fns += [lambda: t * o, lambda: o * t, lambda: t / o, lambda: np.multiply(t, o), lambda: np.multiply(o, t), lambda: np.true_divide(t, o)]
+    # the neutral and other special scalars in every numeric type (a shortcut for them must still behave like the elementwise operation)
+    for s in (1, 1.0, np.int64(1), np.float64(1.0), 1 + 0j, 0, -1, np.array(1.0), True):
+        fns += [lambda s=s: t * s, lambda s=s: s * t, lambda s=s: np.multiply(t, s)]
+        if s not in (0, False):
+            fns += [lambda s=s: t / s, lambda s=s: np.true_divide(t, s)]
+        fns += [lambda s=s: t + s * 0, lambda s=s: t - s * 0]
     for f in fns:
         try:
             f()
